@@ -117,7 +117,21 @@ def check(run):
             fxd = [bool(v['fixed']) or (c['fixFirst'] and j == 0) for j, v in enumerate(cc['verts'])]
             free_v = [v for v, f in zip(g._vertices, fxd) if not f]
             try:
-                if hist == 'two-calls' and len(free_v) >= 2:
+                if hist == 'two-calls' and fxd[0] and sum(fxd) >= 2 and gi % 2 == 0:
+                    # History: the user has fixed the first listed vertex himself (and others); a first call with the defaults (fix_first_pose=True)
+                    # must leave that flag as the user set it, so that a second call with fix_first_pose=False still solves the same problem.
+                    start = [v.pose.copy() for v in g._vertices]
+                    g._vertices[0].fixed = True
+                    with contextlib.redirect_stdout(io.StringIO()):
+                        g.optimize(verbose=False)
+                    for v, p, f in zip(g._vertices, start, fxd):
+                        if not f:
+                            v.pose = p + np.array([0.5, -0.25, 1.0][:len(p)])
+                    topo['history_two_calls'] = topo.get('history_two_calls', 0) + 1
+                    topo['history_user_fixed_first_then_fix_first_false'] = topo.get('history_user_fixed_first_then_fix_first_false', 0) + 1
+                    with contextlib.redirect_stdout(io.StringIO()):
+                        ret = g.optimize(fix_first_pose=False, verbose=False)
+                elif hist == 'two-calls' and len(free_v) >= 2:
                     # History: an earlier optimize() on the same Graph; then one free vertex (now at its optimal position) is marked fixed and the
                     # others are moved to a new guess.  Fixing a vertex AT the optimum does not change the optimum of the others.
                     start = [v.pose.copy() for v in g._vertices]
@@ -134,8 +148,9 @@ def check(run):
                     for v in free_v:
                         v.pose = shared
                     topo['shared_initial_object'] = topo.get('shared_initial_object', 0) + 1
-                with contextlib.redirect_stdout(io.StringIO()):
-                    ret = g.optimize(fix_first_pose=c['fixFirst'], verbose=False)
+                if not (hist == 'two-calls' and fxd[0] and sum(fxd) >= 2 and gi % 2 == 0):
+                    with contextlib.redirect_stdout(io.StringIO()):
+                        ret = g.optimize(fix_first_pose=c['fixFirst'], verbose=False)
             except Exception as ex:  # noqa
                 run.violation(dict(key, outcome='raised'), 'optimize raised %r | case %r' % (ex, cc), dict(case=cc))
                 continue
@@ -156,6 +171,7 @@ def check(run):
             if run.replayed % 19 == 1:
                 run.sample(dict(case=cc, exact_optimum=[str(y) for y in x], exact_chi2=str(chi), code_final_chi2=ret.final_chi2, code_iterations=ret.num_iterations))
     run.notes['topologies'] = topo
+    large_tree(run)
     if min(topo.values()) == 0:
         raise RuntimeError('vacuity guard: %r' % topo)
     run.rule = ('R^2/R^3 lattice graphs (trees, loops, multi-edges, point-to-point landmark edges with offsets, 2..10 vertices, random fixed subsets >= 1 per '
@@ -163,6 +179,53 @@ def check(run):
                 'the reduced normal equations exactly at each guess; exact optimum x0 + dx and chi2* = chi2_0 + b.dx (Fractions), checked identical across the '
                 'guesses; optimize() with default tol/max_iter must end there; non-trivial = distinct (graph, guess) with free coordinates')
     run.assumptions = ['exact Fraction solve of the reduced system', 'the converged flag is not part of this property (at chi2* = 0 the relative test is decided by rounding)']
+
+
+def large_tree(run, one_step=False):
+    """Size dimension: a tree-shaped R^3 graph with thousands of vertices and integer measurements.  On a tree every measurement can be met
+    exactly, so the optimum is known in closed form whatever the information matrices: vertex = root + sum of the measurements along its path
+    (chi^2 = 0).  Nothing in the property depends on the size of the graph."""
+    from graphslam.edge.edge_odometry import EdgeOdometry
+    from graphslam.graph import Graph
+    from graphslam.pose.r3 import PoseR3
+    from graphslam.vertex import Vertex
+    import time
+    rnd = random.Random(run.seed + 77)
+    sizes = (7001, 20001) if run.tier == 'thorough' else (7001,)
+    infos = [np.diag([1.0, 2.0, 3.0]), np.array([[2.0, 1.0, 0.0], [1.0, 2.0, 0.0], [0.0, 0.0, 1.0]]), np.array([[4.0, 1.0, 1.0], [1.0, 3.0, 0.0], [1.0, 0.0, 2.0]])]
+    for n in sizes:
+        t0 = time.time()
+        truth = [np.array([float(rnd.randint(-5, 5)) for _ in range(3)])]
+        edges = []
+        for j in range(1, n):
+            par = rnd.randrange(max(0, j - 50), j)
+            z = np.array([float(rnd.randint(-9, 9)) for _ in range(3)])
+            truth.append(truth[par] + z)
+            if rnd.random() < 0.5:
+                edges.append(EdgeOdometry([par, j], infos[j % 3].copy(), PoseR3(z)))
+            else:
+                edges.append(EdgeOdometry([j, par], infos[j % 3].copy(), PoseR3(-z)))
+        verts = [Vertex(0, PoseR3(truth[0]))] + [Vertex(j, PoseR3(truth[j] + np.array([rnd.uniform(-3, 3) for _ in range(3)]))) for j in range(1, n)]
+        tail = verts[1:]
+        rnd.shuffle(tail)
+        rnd.shuffle(edges)
+        g = Graph(edges, [verts[0]] + tail)
+        key = dict(part='large-tree', vertices=n, one_step=one_step)
+        try:
+            with contextlib.redirect_stdout(io.StringIO()):
+                # (one_step, for C03: on a linear graph ONE Gauss-Newton step from any state lands on the optimum; report chi^2 afterwards)
+                ret = g.optimize(tol=0.0, max_iter=1, verbose=False) if one_step else g.optimize(verbose=False)
+        except Exception as ex:  # noqa
+            run.violation(dict(key, outcome='raised'), 'optimize raised %r on a tree with %d R^3 vertices' % (ex, n), dict(vertices=n, seed=run.seed))
+            continue
+        worst = max(float(np.max(np.abs(np.asarray(v.pose, dtype=float) - truth[v.id]))) for v in g._vertices)
+        run.replayed += 1
+        run.count(key=('large-tree', n), nontrivial=True)
+        run.notes.setdefault('large_trees', []).append({'vertices': n, 'unknowns': 3 * n, 'max_deviation_from_closed_form': worst, 'final_chi2': float(ret.final_chi2),
+                                                        'iterations': int(ret.num_iterations), 'seconds': round(time.time() - t0, 1)})
+        if not (worst <= 1e-8) or not (abs(ret.final_chi2) <= 1e-12):
+            run.violation(dict(key, outcome='not-optimum'), 'tree with %d R^3 vertices (%d unknowns): final poses deviate from root + path sums by %.3g, final chi2 %r (exact optimum: 0)' % (
+                n, 3 * n, worst, ret.final_chi2), dict(vertices=n, seed=run.seed))
 
 
 def replay(run, rep):
